@@ -79,6 +79,10 @@ static Reg r_xc("tmxc", [](const Args& A) {
     long double lhs = (long double)Eu * Kv - (long double)Ku * KEv, sc = std::fabs(Eu * Kv) + std::fabs(Ku * KEv);
     if (!(std::fabs((double)(lhs - 3.14159265358979323846264338327950288L / 2)) <= 16 * 2.220446049250313e-16 * (double)sc))
       bad("legendre-relation", "the complete integrals K(e^2), E(e^2), K(1-e^2), K(1-e^2)-E(1-e^2) of the object violate Legendre's relation: Eu Kv - Ku KEv - pi/2 = " + std::to_string((double)(lhs - 3.14159265358979323846264338327950288L / 2)));
+    // the two EllipticFunction objects carry each other's parameter exactly: k^2 = e^2, k'^2 = 1 - e^2 for u and the reverse for v (F90: k'^2 of the second
+    // object used to be recomputed as 1 - _mv, a relative perturbation eps/e^2 where K(1 - e^2) has its logarithmic singularity)
+    if (!(t._eEu.k2() == t._mu && t._eEu.kp2() == t._mv && t._eEv.k2() == t._mv && t._eEv.kp2() == t._mu))
+      bad("complementary-modulus", "EllipticFunction parameters of the object are not (e^2, 1 - e^2) and (1 - e^2, e^2): _eEu (" + std::to_string(t._eEu.k2()) + ", " + std::to_string(t._eEu.kp2()) + "), _eEv.kp2 - e^2 = " + std::to_string(t._eEv.kp2() - t._mu));
     if (!(t.EquatorialRadius() == 1.0 && t.Flattening() == f && t.CentralScale() == 1.0)) bad("exact-inspectors", "EquatorialRadius/Flattening/CentralScale do not return the constructor arguments");
   });
   if (!err.empty()) emit(err);
